@@ -123,3 +123,14 @@ Theorem C07_model_meets_monitor : forall (cf:config) (m:mech) (mc:mcfg) (cc:ccfg
   consistent mc cf -> consistent_cc cc cf m -> well_formed_history ops -> verdicts_true 7 (run_mon mc cc (init cf m) (mall0 cc) ops).
 Proof. exact AgentMeets2.model_meets_C07. Qed.
 Print Assumptions C07_model_meets_monitor.
+
+(* ---- the attributes the credential mechanism reads of a received message come from the agent's own ordering filter
+   (ProtectedAttributeIteratorObject::next, stun-agent/src/lib.rs). Its Rust text, translated by tools/rs2v.py on every run
+   (Generated/Code.v), yields exactly the attributes the RFC 8489 ordering rule admits, for every sequence of attribute kinds
+   (Proofs/CodeAgreeIter.v) — the abstract model's rfc_filter is that rule *)
+From Rustun Require Import Base.GRes Generated.Code Codec.Filter Proofs.CodeAgreeIter.
+Theorem C07_code_protected_iter_is_rfc_rule : forall ks,
+  gen_collect (S (length ks)) (mk_iter ks {| f_mi := false; f_sha := false; f_fp := false |})
+  = map kind_code (keep_admitted (allow {| s_mi := false; s_sha := false; s_fp := false |} ks) ks).
+Proof. exact CodeAgreeIter.code_protected_iter_is_rfc_rule. Qed.
+Print Assumptions C07_code_protected_iter_is_rfc_rule.
